@@ -410,8 +410,20 @@ func (s *scriptWriter) Write(p []byte) (int, error) {
 func (w *World) doRead(cs *connState, op *ROp) bool {
 	c := cs.c
 	buffered := c.InboundBuffered()
-	ring := buffered - 0
-	_ = ring
+	// probes: did this call have to stitch leftover bytes (ring) with fresh ones?
+	if h := vsched.Hook("inbound-split"); h != nil {
+		if sp, _ := h(any(c)).([]int); len(sp) == 2 && sp[0] > 0 && sp[1] > 0 {
+			n := op.N
+			if n <= 0 || n > buffered {
+				n = buffered
+			}
+			if n > sp[0] {
+				w.probes[op.M+"-across-ring-and-fresh"]++
+			} else {
+				w.probes[op.M+"-within-leftover-ring"]++
+			}
+		}
+	}
 	switch op.M {
 	case "read":
 		n := op.N
